@@ -7,17 +7,19 @@ pub mod c05;
 pub mod c06;
 pub mod c07;
 pub mod c08;
+pub mod c09;
 pub mod regtable;
 pub mod c10;
 pub mod c11;
 pub mod c12;
 pub mod c13;
+pub mod c14;
 pub mod c15;
 
 use crate::engine::Property;
 
 pub fn all_ids() -> Vec<&'static str> {
-    vec!["C01", "C02", "C03", "C04", "C05", "C06", "C07", "C08", "C10", "C11", "C12", "C13", "C15"]
+    vec!["C01", "C02", "C03", "C04", "C05", "C06", "C07", "C08", "C09", "C10", "C11", "C12", "C13", "C14", "C15"]
 }
 
 pub fn get(id: &str) -> Option<Property> {
@@ -30,10 +32,12 @@ pub fn get(id: &str) -> Option<Property> {
         "C06" => Some(c06::property()),
         "C07" => Some(c07::property()),
         "C08" => Some(c08::property()),
+        "C09" => Some(c09::property()),
         "C10" => Some(c10::property()),
         "C11" => Some(c11::property()),
         "C12" => Some(c12::property()),
         "C13" => Some(c13::property()),
+        "C14" => Some(c14::property()),
         "C15" => Some(c15::property()),
         _ => None,
     }
